@@ -181,8 +181,8 @@ Proof.
 Qed.
 
 (* the source as it is: every call dumps *)
-Lemma psd_src_fact : psd_src_skip = false.
-Proof. reflexivity. Qed.
+Lemma psd_src_fact : psd_src_skip = false /\ psd_src_shutdown_dumps = true.
+Proof. split; reflexivity. Qed.
 
 (* REFUTED DESIGN "if another dump is running, return": the periodic dump is in flight (temp file created, snapshot
    taken at version 0), a change (version 1), OnShutdown's dump returns normally - and the files hold version 0 *)
